@@ -333,7 +333,7 @@ def replay(o):
 
 
 INFO = dict(
-    assumptions=A.S_COMMON + [A.A4], trusted_base=A.TRUSTED, min_obligations=100, level="other",
+    assumptions=A.S_COMMON + [A.A4, A.A11, A.A12], trusted_base=A.TRUSTED, min_obligations=100, level="other",
     explanation="C06: Curve.degree_increase / degree setter / Operations.degree_increase(_bezier) / degree_decrease on concrete rational knot vectors with "
                 "symbolic control points and weights: multiplicities + t, C_new == C_old on every span, exactness; reduction of elevated input returns the "
                 "original control points; generic input: refused (unchanged) or accepted within the tolerance (exact LDL^T); tolerance=None: interpolation; "
